@@ -13,7 +13,9 @@ STM = ["x = 1", "y = x + 2", "print(x)", "print(x, y)", "total = total + n", "it
        "for i in range(3):\n    for j in range(i):\n        print(i, j)", "if a:\n    pass\nelif b:\n    x = 1",
        "with open('f') as fh:\n    data = fh.read()", "return_val = lambda q: q + 1", "x += 1", "del x",
        "assert x == 1", "g = [i * 2 for i in items if i]", "print('a' + str(x))", "x, y = y, x", "y = 0",
-       "total = 5", "name = ''", "for i in range(0, 10):\n    print(i)", "flag = False"]
+       "total = 5", "name = ''", "for i in range(0, 10):\n    print(i)", "flag = False",
+       # comments (CPython's parser ignores them all; "# type:" ones only mean something to a type-comment-aware parse)
+       "# type: number of items\nn = 0", "d = f(x,  # type: the first one\n      3)", "m = 1  # type: ignore"]
 CHAIN = ["x = 0", "y = 0", "p = y", "q = x", "p = x", "q = y + 1"]
 
 
